@@ -433,3 +433,5 @@ def run(ctx):
                        "int/bool index array, Ellipsis), model vs x[key] on (data, indices, indptr, shape, compressed_axes, fill), every recorded kernel call "
                        "replayed through the model, plus direct kernel calls on random CSR triples; leg C: COO/GCXS/DOK vs NumPy incl. scalar rule and IndexError; "
                        "non-trivial = array stores at least one element; distinct by content hash")
+    import extra_ops  # operation tables closing the measured coverage gaps (tools/coverage_audit.py; coverage/API_COVERAGE.md)
+    extra_ops.run(ctx, PID)
